@@ -334,7 +334,7 @@ def report(prop, tier, repo, seed, t0, V, results, native, extra, cfg):
             undecided.append({'function': r['ident'], 'kind': r['error_kind'], 'reason': r['error']})
         if nob == 0 and not r['error']:
             undecided.append({'function': r['ident'], 'kind': 'vacuous', 'reason': 'zero obligations generated'})
-        if not any(k.startswith('return') or k.startswith('raise') for k in r['outcomes']) and not r['error']:
+        if not any(str(k).startswith('return') or str(k).startswith('raise') for k in r['outcomes']) and not r['error']:
             undecided.append({'function': r['ident'], 'kind': 'vacuous',
                               'reason': 'no feasible path reaches the end of the function (contradictory requires?)'})
         for o in r['obligations']:
